@@ -53,6 +53,16 @@ SPELLINGS = ['12', '13', 'star', '6-rows', '6-cols', '5']
 _PER = {'quick': 5, 'thorough': 120}
 
 
+def attach_monitors():
+    from .. import monitors
+    monitors.attach_contracts()
+
+
+def monitor_counts():
+    from .. import monitors
+    return dict(monitors.COUNTS)
+
+
 def plan(tier):
     return [(f'{att}|{rot}', _PER[tier]) for att in ATTACH
             for rot in ROT_CLASSES]
